@@ -201,11 +201,13 @@ def _for_zip(I, s, st, zargs, ctx):
     if len(zargs) == 2 and all(k is None for k in known) and all(isinstance(a, Sym) for a in zargs):
         # zip of two symbolic tuple/list values of (provably) equal length: index-based rule
         a, b = zargs[0].t, zargs[1].t
-        ok = z3.And(I.U.has_type(a, ["tuple", "list"]), I.U.has_type(b, ["tuple", "list"]), vm.tlen(a) == vm.tlen(b))
+        ok = z3.And(I.U.has_type(a, ["tuple", "list"]), I.U.has_type(b, ["tuple", "list"]))
         if not I.valid(st, ok):
-            raise OutOfReach("zip over symbolic values of unknown type / different lengths")
+            raise OutOfReach("zip over symbolic values of unknown type")
+        # zip stops at the shorter operand
+        n_total = z3.If(vm.tlen(a) <= vm.tlen(b), vm.tlen(a), vm.tlen(b))
         return _for_symbolic(I, s, st, "tuple", a, ctx, elem_val=lambda x, i: TupV([Sym(x), Sym(vm.titem(b, i))]),
-                             spec_iter_text="zip")
+                             spec_iter_text="zip", n_total=n_total)
     n = min(len(k) for k in known if k is not None)
     syms = []
     for a, k in zip(zargs, known):
@@ -256,7 +258,7 @@ def havoc_vars(I, st, names):
         st.env[n] = Sym(I.U.fresh(n))
 
 
-def _for_symbolic(I, s, st, skind, seq, ctx, elem_val=None, spec_iter_text=None):
+def _for_symbolic(I, s, st, skind, seq, ctx, elem_val=None, spec_iter_text=None, n_total=None):
     """Inductive rule over a symbolic sequence (heap list: Seq split `xs = pre ++ [x] ++ post`;
     tuple/list value: arbitrary index `0 <= i < len`, `x = item(i)`)."""
     from .spec import Prefix
@@ -279,7 +281,7 @@ def _for_symbolic(I, s, st, skind, seq, ctx, elem_val=None, spec_iter_text=None)
         p_all = Prefix("seq", seq=seq)
     else:
         p_empty = Prefix("tuple", t=seq, n=z3.IntVal(0))
-        p_all = Prefix("tuple", t=seq, n=vm.tlen(seq))
+        p_all = Prefix("tuple", t=seq, n=(n_total if n_total is not None else vm.tlen(seq)))
     # (1) invariant on entry
     if inv is not None and obligations is not None:
         obligations.append(("loop-inv-entry:%s" % label, st.fork(), inv(I, st, p_empty)))
@@ -306,7 +308,7 @@ def _for_symbolic(I, s, st, skind, seq, ctx, elem_val=None, spec_iter_text=None)
         p_next = Prefix("seq", seq=z3.Concat(pre, z3.Unit(x)))
     else:
         i = U.fresh_int("idx")
-        it.pc += [i >= 0, i < vm.tlen(seq), x == vm.titem(seq, i)]
+        it.pc += [i >= 0, i < (n_total if n_total is not None else vm.tlen(seq)), x == vm.titem(seq, i)]
         for f in folds:
             px = f.pred(x, i) if f.indexed else f.pred(x)
             it.pc.append(f.tfn(seq, 0))
